@@ -30,6 +30,7 @@ if version_fn and version_fn().startswith("3."):
 else:
   keras = tf.keras
 from . import categorical_calibration_lib
+from . import utils
 
 DEFAULT_INPUT_VALUE_NAME = "default_input_value"
 CATEGORICAL_CALIBRATION_KERNEL_NAME = "categorical_calibration_kernel"
@@ -138,6 +139,7 @@ class CategoricalCalibration(keras.layers.Layer):
     dtype = kwargs.pop("dtype", tf.float32)  # output dtype
     super(CategoricalCalibration, self).__init__(dtype=dtype, **kwargs)
 
+    utils.verify_units(units)
     categorical_calibration_lib.verify_hyperparameters(
         num_buckets=num_buckets,
         output_min=output_min,
